@@ -43,7 +43,7 @@ Definition check (i : inp) (o : bytes) : bool :=
   | IFormat arg fmt off abbr => C18_check_format arg fmt off abbr o
   | IAttr arg attr off => C18_check_attr arg attr off o
   | ITime str fmt names lo fo => bytes_eqb (kf_time str fmt names lo fo) o
-  | IBucket str b fmt names lo fo => bytes_eqb (kf_buckettime str b fmt names lo fo) o
+  | IBucket str b fmt names lo fo => C18_check_bucket str b fmt names lo fo o
   | IDur s => C18_check_duration s o
   | IDurFmt a => C18_check_durationformat a o
   end.
